@@ -270,6 +270,15 @@ def wide_scripts(rng):
     h3 = ["on", "wide3", [], ["call", "doIt"] + [["i", i % 7] for i in range(256)]]
     h4 = ["on", "wide4", [], ["set", ["l", "x"], ["pl"] + [z for i in range(130) for z in (["y", "alpha"], ["i", i])]]]
     out.append(dict(tree=["script", ["factory", "-"], ["props"], ["globals"], h1, h2, h3, h4], pre=L.name_table(rng), kind="wide-operands"))
+    # the same 2-byte-count forms NOT alone on the stack: other operands are pending below them (seeded change C02-m18: the entries
+    # were taken with a slice and the BOTTOM of the stack was deleted instead of the top) — as a later argument, under an operator,
+    # inside a call inside an operator, a long argument list after a pending operand, a long property list as second list element
+    bl = lambda k: ["li"] + [["i", (i + k) % 100] for i in range(256 + k)]
+    h5 = ["on", "wide5", ["a"], ["call", "put", ["i", 5], bl(0)], ["set", ["l", "x"], ["b", "add", ["i", 7], ["c", "count2", bl(1)]]],
+          ["set", ["l", "x"], ["li", ["i", 9], bl(2), ["s", S("z")]]]]
+    h6 = ["on", "wide6", [], ["set", ["l", "y"], ["b", "concat", ["s", S("n=")], ["c", "myFunc"] + [["i", i % 9] for i in range(257)]]],
+          ["call", "put", ["s", S("k")], ["pl"] + [z for i in range(129) for z in (["y", "beta"], ["i", i])]]]
+    out.append(dict(tree=["script", ["factory", "-"], ["props"], ["globals"], h5, h6], pre=L.name_table(rng), kind="wide-operands"))
     # many locals (offsets up to 246) and a long name table (indices up to 255)
     locs = ["v%d" % i for i in range(41)]
     body = [["set", ["l", v], ["i", i]] for i, v in enumerate(locs)] + [["call", "put", ["l", locs[-1]], ["l", locs[20]]],
